@@ -288,6 +288,61 @@ func renderProbes(rep *Report, seed uint64) {
 			rep.Issue(Issue{Kind: "monitor", Fingerprint: "C05:env-reachable", What: "a template can read the process environment through " + fn, Impl: out, Seed: seed})
 		}
 	}
+	// concurrent renders with different settings (each its own configuration, chart object and --api-versions list)
+	// see their own capabilities only: every render equals the one made alone with the same settings
+	{
+		mk := func() *chart.Chart {
+			return &chart.Chart{Metadata: &chart.Metadata{APIVersion: "v2", Name: "caps", Version: "0.1.0"},
+				Templates: []*chart.File{{Name: "templates/x.yaml", Data: []byte("has: {{ range $i := until 8 }}{{ $.Capabilities.APIVersions.Has (printf \"demo.example/v%d\" $i) }} {{ end }}\nn: {{ len .Capabilities.APIVersions }}\nkube: {{ .Capabilities.KubeVersion.Version }}\nrel: {{ .Release.Name }}/{{ .Release.Namespace }}\n")}}}
+		}
+		one := func(k int) string {
+			cfg := &action.Configuration{Releases: storage.Init(driver.NewMemory()), Capabilities: chartutil.DefaultCapabilities.Copy()}
+			in := action.NewInstall(cfg)
+			in.ReleaseName, in.Namespace, in.DryRun, in.ClientOnly = fmt.Sprintf("rel%d", k), fmt.Sprintf("ns%d", k), true, true
+			in.APIVersions = chartutil.VersionSet{fmt.Sprintf("demo.example/v%d", k)}
+			if k%2 == 1 {
+				in.KubeVersion = &chartutil.KubeVersion{Version: fmt.Sprintf("v1.%d.0", 20+k), Major: "1", Minor: fmt.Sprint(20 + k)}
+			}
+			var o string
+			if p := safely(func() {
+				rel, err := in.Run(mk(), map[string]any{})
+				if err != nil {
+					o = "error: " + err.Error()
+					return
+				}
+				o = rel.Manifest
+			}); p != "" {
+				o = "panic: " + p
+			}
+			return o
+		}
+		const workers = 8
+		var ref [workers]string
+		for k := 0; k < workers; k++ {
+			ref[k] = one(k)
+		}
+		var wg sync.WaitGroup
+		var bad [workers]string
+		for k := 0; k < workers; k++ {
+			wg.Add(1)
+			go func(k int) {
+				defer wg.Done()
+				for i := 0; i < 150; i++ {
+					if o := one(k); o != ref[k] && bad[k] == "" {
+						bad[k] = o
+					}
+				}
+			}(k)
+		}
+		wg.Wait()
+		rep.H("probe:concurrent-settings")
+		for k := 0; k < workers; k++ {
+			if bad[k] != "" {
+				rep.Issue(Issue{Kind: "monitor", Fingerprint: "C05:concurrent-settings-leak", What: "a client-only render running next to renders with other --api-versions / --kube-version settings differs from the same render made alone", Model: ref[k], Impl: bad[k], Seed: seed})
+				break
+			}
+		}
+	}
 	out, err := probe(`v: "{{ getHostByName "localhost" }}"`)
 	rep.H("probe:dns")
 	if err != nil || strings.TrimSpace(out) != `v: ""` {
